@@ -12,7 +12,7 @@ template <class C> struct Runner {
     typedef Api<C> A; typedef typename A::Uri Uri;
     ArenaMM base_mem, ref_mem; Ledger led; Ctx *ctx; Local *lc;
     std::vector<RoUri<C> > bases;
-    Runner(Ctx *c, Local *l) : base_mem(512), ref_mem(16), ctx(c), lc(l) {}
+    Runner(Ctx *c, Local *l, size_t ref_pages = 16) : base_mem(512), ref_mem(ref_pages), ctx(c), lc(l) {}
     void setup(const std::vector<Str> &base_texts) {
         for (auto &t : base_texts) { RoUri<C> b = make_ro<C>(base_mem, t); if (!b.ok) { ctx->harness_error("base does not parse: " + t); continue; } bases.push_back(b); }
         base_mem.arena.protect();
@@ -92,6 +92,10 @@ void run(Ctx &ctx) {
         if (ctx.expired()) break;
         ctx.progress++; ra.run_ref(refs[i]); rw.run_ref(refs[i]);
     }
+    // stretch family as references (long segments, many segments, long runs of dot segments) against a few bases of every kind
+    { std::vector<Str> sb = { "s://h/a/b?bq", "s:/a/b", "s:a/b", "s:", "s://u@[::1]:1/x/../y/z" }; Runner<char> sa(&ctx, &lc, 6000); Runner<wchar_t> sw2(&ctx, &lc, 6000); sa.setup(sb); sw2.setup(sb);
+      std::vector<Str> st = stretch_list(ctx.secondary || ctx.quick() ? 0 : 1);
+      for (size_t i = 0; i < st.size(); i++) { if (!ctx.mine(i)) continue; if (ctx.expired()) break; ctx.progress++; sa.run_ref(st[i]); sw2.run_ref(st[i]); ctx.st.count("stretch_family"); } }
     ctx.st.count("evaluations", lc.calls); ctx.st.count("regime1_absolute", lc.regime[1]); ctx.st.count("regime2_rootless", lc.regime[2]); ctx.st.count("regime3_same_document", lc.regime[3]);
     ctx.st.count("rootless_alt_spelling_used", lc.alt_used); ctx.st.count("double_slash_guard_seen", lc.guard_dot); ctx.st.count("relative_base_rejections", lc.rel_base);
     for (auto &s : lc.outcomes) ctx.st.distinct("targets", s);
@@ -100,15 +104,15 @@ void run(Ctx &ctx) {
 void replay(Ctx &ctx, const Str &enc) {
     std::vector<Str> p = split(enc, '`'); if (p.size() != 5) return;
     Local lc; std::vector<Str> bases; bases.push_back(p[0]);
-    if (p[4] == "A") { Runner<char> r(&ctx, &lc); r.setup(bases); r.run_ref(p[1], 0, atoi(p[2].c_str()), atoi(p[3].c_str())); }
-    else { Runner<wchar_t> r(&ctx, &lc); r.setup(bases); r.run_ref(p[1], 0, atoi(p[2].c_str()), atoi(p[3].c_str())); }
+    if (p[4] == "A") { Runner<char> r(&ctx, &lc, 6000); r.setup(bases); r.run_ref(p[1], 0, atoi(p[2].c_str()), atoi(p[3].c_str())); }
+    else { Runner<wchar_t> r(&ctx, &lc, 6000); r.setup(bases); r.run_ref(p[1], 0, atoi(p[2].c_str()), atoi(p[3].c_str())); }
 }
 Str coverage(const Ctx &, const Stats &st) {
     return jkv("evaluations", st.get("evaluations")) + ", " + jkv("distinct_nontrivial", st.nset("targets")) + ", " +
            jkvs("rule", "cases = (base, reference, option, memory manager, character type). Bases: scheme x 6 authorities x 12 paths x 2 queries plus scheme-less bases; references: 4 schemes x 4 authorities x all path-token sequences of length <= n over {'', '.', '..', a, b, c:d} (rootless and absolute) x 3 queries x 3 fragments, deduplicated; the full product is executed. Base and reference live in PROT_READ memory. The result is compared component for component and as recomposed text with the reference implementation of RFC 3986 5.2.2-5.2.4. distinct_nontrivial = number of distinct resolved target texts observed (capped at 200000).") + ", " +
            jkv("bases", st.get("bases")) + ", " + jkv("references", st.get("references")) + ", " + jkv("path_tokens_max", st.get("param_n")) + ", " +
            jkv("regime1_absolute", st.get("regime1_absolute")) + ", " + jkv("regime2_rootless", st.get("regime2_rootless")) + ", " + jkv("regime3_same_document", st.get("regime3_same_document")) + ", " +
-           jkv("rootless_alt_spelling_used", st.get("rootless_alt_spelling_used")) + ", " + jkv("double_slash_guard_seen", st.get("double_slash_guard_seen")) + ", " + jkv("relative_base_rejections", st.get("relative_base_rejections")) + ", " + jsamples(st);
+           jkv("rootless_alt_spelling_used", st.get("rootless_alt_spelling_used")) + ", " + jkv("double_slash_guard_seen", st.get("double_slash_guard_seen")) + ", " + jkv("relative_base_rejections", st.get("relative_base_rejections")) + ", " + jkv("stretch_family_references", st.get("stretch_family")) + ", " + jsamples(st);
 }
 Check chk = { "C06", "exploration", run, replay, coverage, "reference resolver (harness/ref.cpp) is a literal transcription of RFC 3986 5.2.2-5.2.4; its section 5.4 examples are asserted at start-up|rootless merged paths are judged by the segment-list variant as the statement requires" };
 REGISTER_CHECK(chk);
